@@ -4,6 +4,7 @@ import (
 	"fmt"
 	"reflect"
 	"sort"
+	"strconv"
 	"strings"
 	"time"
 
@@ -256,6 +257,113 @@ func c15Targets() []namedTarget {
 	add("*T", func() any { return &T{} })
 	add("*Other", func() any { return &Other{} })
 	add("*EmbIn", func() any { return &EmbIn{} })
+	// the same layouts under a type name that MATCHES the block type "t" (a named struct type whose name does not
+	// match is refused before any field is looked at): local types called T
+	add("*T{Emb;Y}", func() any {
+		type T struct {
+			Emb
+			Y int
+		}
+		return &T{}
+	})
+	add("*T{*Emb;Y} nil", func() any {
+		type T struct {
+			*Emb
+			Y int
+		}
+		return &T{}
+	})
+	add("*T{*Emb;Y} set", func() any {
+		type T struct {
+			*Emb
+			Y int
+		}
+		return &T{Emb: &Emb{}}
+	})
+	add("*T{*embUnexp;Y} nil", func() any {
+		type T struct {
+			*embUnexp
+			Y int
+		}
+		return &T{}
+	})
+	add("*T{*embUnexp;Y} set", func() any {
+		type T struct {
+			*embUnexp
+			Y int
+		}
+		return &T{embUnexp: &embUnexp{}}
+	})
+	add("*T{embUnexp;Y}", func() any {
+		type T struct {
+			embUnexp
+			Y int
+		}
+		return &T{}
+	})
+	add("*T{x;Y}", func() any {
+		type T struct {
+			x int
+			Y int
+		}
+		return &T{x: 1}
+	})
+	add("*T{A tag x;X}", func() any {
+		type T struct {
+			A int `bcl:"x"`
+			X int
+		}
+		return &T{}
+	})
+	add("*T{A;B;C;D tag x}", func() any {
+		type T struct {
+			A, B, C int
+			D       int `bcl:"x"`
+		}
+		return &T{}
+	})
+	add("*T{X}", func() any {
+		type T struct{ X int }
+		return &T{}
+	})
+	add("*T{Y tag x}", func() any {
+		type T struct {
+			Y int `bcl:"x"`
+		}
+		return &T{}
+	})
+	add("*T{In In;X}", func() any {
+		type T struct {
+			In In
+			X  int
+		}
+		return &T{}
+	})
+	add("*T{In *In;X}", func() any {
+		type T struct {
+			In *In
+			X  int
+		}
+		return &T{}
+	})
+	add("*T{In T{*embUnexp}}", func() any {
+		type in struct {
+			*embUnexp
+			Name string
+		}
+		type T struct {
+			In in
+			X  int
+		}
+		return &T{}
+	})
+	add("*[]T{*embUnexp;Y}", func() any {
+		type T struct {
+			*embUnexp
+			Y int
+		}
+		return &[]T{}
+	})
 	add("*WithUnexpEmbPtr", func() any { return &WithUnexpEmbPtr{} })
 	add("*WithUnexpEmbPtrSet", func() any { return &WithUnexpEmbPtr{embUnexp: &embUnexp{}} })
 	add("*WithUnexpEmb", func() any { return &WithUnexpEmb{} })
@@ -448,9 +556,86 @@ func c15Tables() {
 func snapshot(target any) string {
 	v := reflect.ValueOf(target)
 	if !v.IsValid() || v.Kind() != reflect.Pointer || v.IsNil() {
-		return fmt.Sprintf("%#v", target)
+		return deepStr(v, 0)
 	}
-	return fmt.Sprintf("%#v", v.Elem().Interface())
+	return deepStr(v.Elem(), 0)
+}
+
+// deepStr renders a value without any address in it (pointers are followed; funcs and channels print as
+// nil / non-nil), so that two executions can be compared.
+func deepStr(v reflect.Value, depth int) string {
+	if !v.IsValid() {
+		return "<invalid>"
+	}
+	if depth > 8 {
+		return "..."
+	}
+	switch v.Kind() {
+	case reflect.Pointer:
+		if v.IsNil() {
+			return "nil-" + v.Type().String()
+		}
+		return "&" + deepStr(v.Elem(), depth+1)
+	case reflect.Interface:
+		if v.IsNil() {
+			return "nil-interface"
+		}
+		return "i(" + deepStr(v.Elem(), depth+1) + ")"
+	case reflect.Struct:
+		var sb strings.Builder
+		sb.WriteString(v.Type().String() + "{")
+		for i := 0; i < v.NumField(); i++ {
+			if i > 0 {
+				sb.WriteString(", ")
+			}
+			sb.WriteString(v.Type().Field(i).Name + ":" + deepStr(v.Field(i), depth+1))
+		}
+		sb.WriteString("}")
+		return sb.String()
+	case reflect.Slice, reflect.Array:
+		if v.Kind() == reflect.Slice && v.IsNil() {
+			return "nil-" + v.Type().String()
+		}
+		var sb strings.Builder
+		sb.WriteString(v.Type().String() + "[")
+		for i := 0; i < v.Len(); i++ {
+			if i > 0 {
+				sb.WriteString(", ")
+			}
+			sb.WriteString(deepStr(v.Index(i), depth+1))
+		}
+		sb.WriteString("]")
+		return sb.String()
+	case reflect.Map:
+		if v.IsNil() {
+			return "nil-" + v.Type().String()
+		}
+		var parts []string
+		it := v.MapRange()
+		for it.Next() {
+			parts = append(parts, deepStr(it.Key(), depth+1)+":"+deepStr(it.Value(), depth+1))
+		}
+		sort.Strings(parts)
+		return v.Type().String() + "{" + strings.Join(parts, ", ") + "}"
+	case reflect.Func, reflect.Chan, reflect.UnsafePointer:
+		if v.IsNil() {
+			return "nil-" + v.Type().String()
+		}
+		return "non-nil-" + v.Type().String()
+	case reflect.String:
+		return strconv.Quote(v.String())
+	case reflect.Int, reflect.Int8, reflect.Int16, reflect.Int32, reflect.Int64:
+		return fmt.Sprintf("%s(%d)", v.Type().String(), v.Int())
+	case reflect.Uint, reflect.Uint8, reflect.Uint16, reflect.Uint32, reflect.Uint64, reflect.Uintptr:
+		return fmt.Sprintf("%s(%d)", v.Type().String(), v.Uint())
+	case reflect.Float32, reflect.Float64:
+		return fmt.Sprintf("%s(%v)", v.Type().String(), v.Float())
+	case reflect.Bool:
+		return fmt.Sprint(v.Bool())
+	case reflect.Complex64, reflect.Complex128:
+		return fmt.Sprint(v.Complex())
+	}
+	return "?" + v.Kind().String()
 }
 
 // c15Exec explores every map iteration order of every range-over-map executed by Bind.
